@@ -4,7 +4,7 @@ from __future__ import annotations
 import ast
 
 from ..ctx import C, GR, M, Ctx, call_name, calls_in, walk_function
-from ..fold import QN, is_unknown
+from ..fold import ClassRef, QN, is_unknown
 from ..loader import AnalysisError, dotted, norm
 from ..mutation import all_assignments, resolve_local
 from ..report import Rule, RuleResult
@@ -483,6 +483,57 @@ def c05_r6(ctx: Ctx, rule):
                      "the optional argument given to the convenience method is silently lost")
         for w in wrong:
             res.fail(rule.id, "forwarder-misroutes::%s::%s" % (q, w), ctx.loc(q, call), "%s passes %s" % (short(q), w), "an argument lands in another role")
+    return res
+
+
+@rule("C14", "C14.R11", "the table of inferred element classes is consulted only for an end that has no node yet", 2,
+      decides="a relation between two declared elements gets its edge whatever its formal attributes are called")
+def c14_r11(ctx: Ctx, rule):
+    """prov_to_graph infers a node for an undeclared end from the attribute naming that end; attributes the table does not know
+    (prov:influencee / prov:influencer ...) make the lookup fail and the relation is skipped - which is right only when a node has
+    to be inferred.  Every lookup in that table therefore sits under `<end> not in <node map>` (enclosing if, or after a guard
+    clause that leaves when the end is known)."""
+    res = RuleResult()
+    q = GR + ".prov_to_graph"
+    fi = ctx.fn(q)
+    # the table: a module-level dict of prov.graph whose values are element classes
+    tables = set()
+    env = ctx.f.module_env(GR)
+    for name, v in env.items():
+        if isinstance(v, dict) and v and all(isinstance(x, ClassRef) for x in v.values()):
+            tables.add(name)
+    if not tables:
+        raise AnalysisError("prov.graph: table of inferred element classes not found")
+    parents = {}
+    for n in ast.walk(fi.node):
+        for ch in ast.iter_child_nodes(n):
+            parents[id(ch)] = n
+    lookups = [n for n in walk_function(fi.node) if isinstance(n, ast.Subscript) and isinstance(n.ctx, ast.Load) and isinstance(n.value, ast.Name) and n.value.id in tables]
+    lookups += [n for n in walk_function(fi.node) if isinstance(n, ast.Call) and call_name(n) == "get" and isinstance(n.func, ast.Attribute) and isinstance(n.func.value, ast.Name) and n.func.value.id in tables]
+    if not lookups:
+        raise AnalysisError("prov_to_graph: no lookup in %s" % sorted(tables))
+    for lk in lookups:
+        guarded = False
+        cur = lk
+        while id(cur) in parents and not guarded:
+            p = parents[id(cur)]
+            if isinstance(p, ast.If) and any(cur is b or any(x is cur for x in ast.walk(b)) for b in p.body):
+                for c in ([p.test] + (list(p.test.values) if isinstance(p.test, ast.BoolOp) and isinstance(p.test.op, ast.And) else [])):
+                    if isinstance(c, ast.Compare) and len(c.ops) == 1 and isinstance(c.ops[0], ast.NotIn):
+                        guarded = True
+            # guard clause earlier in the same block: `if end in node_map: <leave>`
+            for fld in ("body", "orelse"):
+                blk = getattr(p, fld, None)
+                if isinstance(blk, list) and cur in blk:
+                    for st in blk[:blk.index(cur)]:
+                        if isinstance(st, ast.If) and isinstance(st.test, ast.Compare) and len(st.test.ops) == 1 and isinstance(st.test.ops[0], ast.In) and st.body and isinstance(st.body[-1], (ast.Continue, ast.Return, ast.Break)):
+                            guarded = True
+            cur = p
+        res.ob("lookup %s is made only when the end has no node yet: %s" % (norm(lk)[:50], guarded))
+        if not guarded:
+            res.fail(rule.id, "kind-lookup-unconditional::%s" % norm(lk)[:40], ctx.loc(q, lk),
+                     "prov_to_graph looks %s up for every relation, not only for ends without a node: a KeyError there skips relations whose two ends are declared" % norm(lk)[:50],
+                     "wasInfluencedBy(e2, e1) between two declared entities: no edge, and the relation is missing from graph_to_prov(prov_to_graph(d))")
     return res
 
 
